@@ -34,6 +34,8 @@ THEOREMS = [
     # review items: behaviour at the edges and the proposed fixes
     "Inventory.collapseAux_no_nl", "Inventory.file_roundtrip_collapsed", "Inventory.split_ws_reads_like_sphinx",
     "Inventory.pySplitWs_join", "Inventory.splitters_agree",
+    # driver.make: what is listed is what is written
+    "Inventory.inventory_lists_what_is_written", "Inventory.summary_only_lists_nothing", "Inventory.inventory_only_lists_roots",
     # hunter round
     "Inventory.roundtrip_numeric_token_counterexample",
     # after df39b19: usable lines of damaged-but-trustworthy files are kept
@@ -76,7 +78,10 @@ RULE = ("(a) exhaustive: every line of <=6 tokens joined by single spaces (empty
         "a name is looked up before a later load (re)defines it. Hunter round: module FILE names with blanks and numbers "
         "('utils copy 2') in generated projects; files with one or two lines that are not UTF-8; for every truncation the "
         "oracle computes, with zlib.decompressobj and independently of pydoctor, the complete lines the stream still holds and "
-        "requires the well-formed ones to resolve (a stream zlib rejects outright holds nothing trustworthy). (0) corpus, run first and seed-independent: the input of every "
+        "requires the well-formed ones to resolve (a stream zlib rejects outright holds nothing trustworthy). (g) the real driver.main on a two-root project (non-ASCII module, private class, nested class) with 9 option "
+        "combinations (plain, summary pages only, inventory only, --html-subject on a module / class / two objects / function / method, "
+        "subject + summary): the subjects handed to the inventory writer against the model, and on disk: every entry leads to a page "
+        "and anchor this run wrote and exactly the visible objects on written pages are listed. (0) corpus, run first and seed-independent: the input of every "
         "recorded finding and the needed shape of every seeded change (priority-last line, header-truncated downloads, "
         "percent lines, a compressed body holding newline+'#', the stale-lookup sequence, a non-ASCII project). (e) cache: "
         "parseMaxAge on every string of <=4 characters over a 13-character alphabet + boundary values; prepareCache over "
@@ -95,7 +100,9 @@ ASSUMPTIONS = [
     "observed at the real call and handed to the model, and the bytes the real code hands to it are compared with the model's "
     "stripped payload. UTF-8 decoding is a parameter in the theorems and the model's own strict decoder (utf8Decode) in the "
     "correspondence, i.e. compared with bytes.decode on every payload and line.",
-    "the writer model covers subjects = system.rootobjects (the driver's default); --html-subject is outside the model.",
+    "the writer model takes its subjects as given; which subjects driver.make hands over (plain, --html-subject, --html-summary-pages, "
+    "--make-intersphinx alone) is modelled by inventorySubjects and compared with the real driver (stream g); that the page writer's "
+    "recursion writes exactly the pages of those subjects is checked by the on-disk oracle only.",
     "Lean `Char` excludes surrogates: names containing lone surrogates are outside the model.",
     "linker: objForFullName, expandName, resolveName and the context search after the intersphinx test (walk up the parents, uncle "
     "search, all-modules search) are parameters of resolveXref/linkTo, observed on the real objects (name resolution is C04's layer).",
@@ -1742,8 +1749,149 @@ def stream_kinds(ctx: Ctx) -> None:
     compare(ctx, "kinds", reqs, impls, pay)
 
 
+# ------------------------------------------------------------------ stream (g): the real driver, option combinations that select subjects
+
+DRIVER_SRC = {
+    "pk/__init__.py": '"""p"""\n',
+    "pk/m.py": '"""m"""\nclass C:\n    """c"""\n    def meth(self):\n        """d"""\n    class N:\n        """n"""\n        y = 2\n        """y doc"""\n'
+               'def f():\n    """f"""\nx = 1\n"""x doc"""\nclass _P:\n    """private class"""\n',
+    "pk/caf\u00e9.py": '"""non-ascii"""\ndef g\u00fc():\n    """d"""\n',
+    "solo.py": '"""solo"""\ndef g():\n    """g"""\n',
+}
+DRIVER_RUNS = [
+    ("plain", []),
+    ("summary-only", ["--html-summary-pages"]),
+    ("inventory-only", ["--make-intersphinx"]),
+    ("subject-module", ["--html-subject", "pk.m"]),
+    ("subject-class", ["--html-subject", "pk.m.C"]),
+    ("subject-two", ["--html-subject", "pk.m.C.N", "--html-subject", "solo"]),
+    ("subject-function", ["--html-subject", "pk.m.f"]),
+    ("subject-method", ["--html-subject", "pk.m.C.meth"]),
+    ("subject-and-summary", ["--html-subject", "pk.m.C", "--html-summary-pages"]),
+]
+SIG_SUBJECT_NO_PAGE = "driver:html-subject-without-own-page:listed-but-not-written"
+
+
+def stream_driver(ctx: Ctx) -> None:
+    """the real `driver.main` with the options that choose what is written: every inventory entry must lead to a page
+    and anchor the run wrote, and exactly the visible objects on written pages are listed"""
+    import contextlib
+    import os
+    import shutil
+    import tempfile
+    from urllib.parse import unquote
+    from pathlib import Path
+    from pydoctor import driver, model, sphinx
+    reqs: List[str] = []
+    impls: List[str] = []
+    pay: List[Any] = []
+    tmp = tempfile.mkdtemp(prefix="c17driver")
+    try:
+        for rel, text in DRIVER_SRC.items():
+            path = os.path.join(tmp, "src", rel)
+            os.makedirs(os.path.dirname(path), exist_ok=True)
+            with open(path, "w", encoding="utf-8") as f:
+                f.write(text)
+        roots = [os.path.join(tmp, "src", "pk"), os.path.join(tmp, "src", "solo.py")]
+        # reference system (same sources), to know which objects are visible and which page each lives on
+        ref = model.System()
+        b = ref.systemBuilder(ref)
+        for r in roots:
+            b.addModule(Path(r))
+        b.buildModules()
+        visible = {o.fullName(): o for o in ref.allobjects.values() if o.isVisible}
+        for tag, extra in DRIVER_RUNS:
+            out = os.path.join(tmp, "out-" + tag)
+            seen: Dict[str, Any] = {}
+            real_writer = driver.SphinxInventoryWriter
+
+            class SpyWriter(real_writer):  # type: ignore
+                def generate(self, subjects, basepath):
+                    seen["subjects"] = [o.fullName() for o in subjects]
+                    seen["is_roots"] = list(subjects) == list(seen_system.get("roots", [None]))
+                    return super().generate(subjects, basepath)
+            seen_system: Dict[str, Any] = {}
+            real_make = driver.make
+
+            def spy_make(system):
+                seen_system["roots"] = list(system.rootobjects)
+                return real_make(system)
+            driver.SphinxInventoryWriter = SpyWriter  # type: ignore
+            driver.make = spy_make  # type: ignore
+            try:
+                with contextlib.redirect_stdout(io.StringIO()), contextlib.redirect_stderr(io.StringIO()):
+                    try:
+                        rc = driver.main(["-q", "-q", "--html-output", out] + extra + roots)
+                    except SystemExit as e:
+                        rc = e.code
+                    except Exception as e:
+                        rc = "EXC:" + type(e).__name__
+            finally:
+                driver.SphinxInventoryWriter = real_writer  # type: ignore
+                driver.make = real_make  # type: ignore
+            label = {"driver": tag, "args": extra}
+            ctx.case("driver " + tag, tag != "plain", {"driver": tag, "args": extra, "subjects": seen.get("subjects")} if tag == "subject-class" else None)
+            ctx.count("driver:" + tag)
+            if isinstance(rc, str):
+                ctx.fail("driver-raises:" + rc[4:], label, f"driver.main {extra} raised {rc[4:]}")
+                continue
+            # model: which subjects the inventory writer is handed
+            makehtml = "--make-intersphinx" not in extra
+            subj_names = [extra[i + 1] for i, a in enumerate(extra) if a == "--html-subject"]
+            req = f"inventory subjects {int(makehtml)} 1 {int('--html-summary-pages' in extra)} " + " ".join(enc(n) for n in subj_names)
+            if "subjects" not in seen:
+                impl = "no-inventory"
+            elif seen["is_roots"]:
+                impl = "roots"
+            elif not seen["subjects"]:
+                impl = "nothing"
+            else:
+                impl = "named " + " ".join(enc(n) for n in seen["subjects"])
+            reqs.append(req.rstrip()); impls.append(impl); pay.append(label)
+            # direct oracle on what is on disk
+            inv_path = os.path.join(out, "objects.inv")
+            if not os.path.exists(inv_path):
+                ctx.fail("driver-no-inventory", label, "no objects.inv was written")
+                continue
+            with open(inv_path, "rb") as f:
+                data = f.read()
+            _, _, excs, inv = run_session([(URL, data)], [])
+            listed = dict(inv._links)
+            html_made = makehtml
+            if html_made:
+                dead = []
+                for name, (_, loc) in listed.items():
+                    page, _, anchor = loc.partition("#")
+                    fpath = os.path.join(out, unquote(page))
+                    if not os.path.exists(fpath):
+                        dead.append((name, loc, "page not written"))
+                    elif anchor:
+                        with open(fpath, "rb") as f:
+                            html = f.read().decode("utf-8", "replace")
+                        if f'name="{unquote(anchor)}"' not in html and f'id="{unquote(anchor)}"' not in html:
+                            dead.append((name, loc, "anchor missing"))
+                # the objects documented by this run: visible objects whose page object's file was written as an OBJECT page
+                summary_files = {"index.html"}
+                written = {n for n, o in visible.items()
+                           if unquote(o.page_object.url) not in summary_files and os.path.exists(os.path.join(out, unquote(o.page_object.url)))}
+                if dead or set(listed) != written:
+                    only_subject_without_page = bool(subj_names) and all(
+                        (n in visible and visible[n].page_object is not visible[n]) for n in subj_names) and not written \
+                        and set(listed) <= set(subj_names) | {k for n in subj_names for k in visible if k.startswith(n + ".")}
+                    ctx.fail(SIG_SUBJECT_NO_PAGE if only_subject_without_page else "driver:listed-vs-written", label,
+                             f"run {tag}: inventory lists {len(listed)} objects, {len(written)} are on pages this run wrote; "
+                             f"dead entries: {dead[:3]}; listed-not-written: {sorted(set(listed) - written)[:3]}; written-not-listed: {sorted(written - set(listed))[:3]}")
+            else:
+                if set(listed) != set(visible):
+                    ctx.fail("driver:inventory-only-incomplete", label, f"--make-intersphinx alone lists {len(listed)} of {len(visible)} visible objects")
+    finally:
+        shutil.rmtree(tmp, ignore_errors=True)
+    compare(ctx, "driver", reqs, impls, pay)
+
+
 def run(ctx: Ctx) -> None:
     stream_corpus(ctx)
+    stream_driver(ctx)
     stream_lines(ctx)
     stream_projects(ctx)
     stream_robust(ctx)
